@@ -70,12 +70,40 @@ class Module:
         self.globals_assigned = {}
 
 
+_SM_CACHE = {}
+
+
+def _stamp(pkg_dir):
+    try:
+        return tuple((fn, os.stat(os.path.join(pkg_dir, fn)).st_mtime_ns, os.stat(os.path.join(pkg_dir, fn)).st_size)
+                     for fn in sorted(os.listdir(pkg_dir)) if fn.endswith('.py'))
+    except OSError:
+        return None
+
+
 class SourceModel:
+    """Parsed once per process and source state: the jobs of a check run in forked workers and each asks for a SourceModel;
+    they all get the instance the parent built (same files, same mtimes and sizes), which is read-only after construction."""
+    def __new__(cls, pkg_dir=None):
+        d = pkg_dir or PKG_DIR
+        st = _stamp(d)
+        hit = _SM_CACHE.get(d)
+        if hit is not None and st is not None and hit[0] == st:
+            return hit[1]
+        self = super().__new__(cls)
+        self._fresh = True
+        return self
+
     def __init__(self, pkg_dir=None):
+        if not self.__dict__.pop('_fresh', False):
+            return                      # cached instance
         self.pkg_dir = pkg_dir or PKG_DIR
         self.modules = {}
         self.files = []
         self._load()
+        st = _stamp(self.pkg_dir)
+        if st is not None:
+            _SM_CACHE[self.pkg_dir] = (st, self)
 
     def _load(self):
         if not os.path.isdir(self.pkg_dir):
